@@ -116,6 +116,8 @@ def do(kind, obj, op):
         return len(r) if isinstance(r, list) else NORET
     elif o in ('setslice0', 'setslice1', 'setslice2'):
         obj[i:v] = [7, 8][:int(o[-1])]
+    elif o == 'setslicebad':                 # the first new member is fine, the second is not: nothing may be stored
+        obj[i:v] = [7, 'not a number']
     elif o == 'setbad':
         obj.setComponentByPosition(i, 'not a number')
     elif o == 'setbadobj':
@@ -214,7 +216,8 @@ def alphabet(kind):
         ops += [('contains', 0, 1), ('count', 0, 1), ('index', 0, 2), ('iter', 0, 0), ('prettyPrint', 0, 0), ('eq', 0, 0),
                 ('encode', 0, 0), ('clone', 0, 0), ('cloneschema', 0, 0)]
         ops += [('getslice', 0, 2), ('getslice', -2, 99), ('setslice1', 0, 1), ('setslice2', 0, 1), ('setslice0', 0, 1),
-                ('setslice2', 1, 3), ('setslice1', 5, 99), ('setslice2', -1, 99)]
+                ('setslice2', 1, 3), ('setslice1', 5, 99), ('setslice2', -1, 99),
+                ('setslicebad', 0, 2), ('setslicebad', 1, 3), ('setslicebad', 0, 1)]
         return ops
     if kind == 'ch':
         ops = [('set', i, 1) for i in (0, 1, 2, 3)] + [('setitem', 1, 2), ('setbyname', 0, 2), ('setbyname', 3, 2),
@@ -355,7 +358,7 @@ def run(ctx):
             ctx.keys.add((kind,) + tuple(o for o, _, _ in h))
         for t in (traces[1234], traces[-5]):
             ctx.sample({'container': t['kind'], 'events': [{k: e[k] for k in ('o', 'i', 'v', 'res', 'ret', 'isv', 'len', 'el')} for e in t['ev']]})
-    ctx.rule = ('all operation sequences of length 3 over the public API alphabet of SEQUENCE OF (47 ops incl. reversed and keyed stable sorts, slice reads and slice '
+    ctx.rule = ('all operation sequences of length 3 over the public API alphabet of SEQUENCE OF (50 ops incl. slice assignments with an ill-formed second member, reversed and keyed stable sorts, slice reads and slice '
                 'assignments), CHOICE (28), SEQUENCE (31) and SET (43, incl. tag-addressed set/get/peek) + random longer ones; after every call the object is projected (isValue, len, members, DER) '
                 'and compared with the list/dict/at-most-one machines of spec/Container.tla by spec/Trace_Container.tla; '
                 'plus arithmetic/conversion/comparison probes on valueless scalars of 13 types')
